@@ -71,15 +71,61 @@ HEADER_POOL = [
     "héader", "日本", "\U0001F600", "multi\nline", "tab\th", "UPPER", "upper", "_", "-", "a b c", "{{h}}", "&h", "<h>",
 ]
 NAME_ALPHA = "abcdefghijklmnopqrstuvwxyzABCDEFGHIJKLMNOPQRSTUVWXYZ0123456789 _-.éß日本ç\U0001F600"
+# text that is NOT in a Unicode normal form (a sheet name, a header and a cell are opaque strings in every format: no
+# reader or writer may compose, decompose or fold them).  Written with escapes on purpose: editors normalise.
+#   not NFC:  decomposed accents (base + combining mark), several marks in non-canonical order, conjoining Hangul jamo,
+#             singleton code points whose canonical form is another character (ANGSTROM SIGN, OHM SIGN, GREEK QUESTION
+#             MARK, EN QUAD, deprecated combining marks, CJK compatibility ideographs, Devanagari composition exclusions)
+#   NFC but not NFKC: compatibility characters (ligatures, fullwidth, superscripts, circled digits, ideographic space)
+#   NFC but not NFD: the composed twins of the above (so that both spellings of one word meet in one workbook)
+NOT_NFC = [
+    "cafe\u0301", "e\u0301", "A\u030a", "n\u0303o", "u\u0308ber", "E\u0301cole", "a\u0300 la", "o\u0302\u0323", "o\u0323\u0302", "q\u0307\u0323", "s\u0307\u0323",
+    "\u1112\u1161\u11ab", "\u1100\u1161", "\u212b", "\u2126", "\u037e", "a\u037eb", "\u2000", "a\u2000b", "\u0340", "a\u0344", "\u0958", "\u0f73", "\uf900",
+    "\u2329x\u232a", "\u017f\u0307", "\u0041\u030a\u0301", "\u03b1\u0313\u0301", "\ufb31", "\ufb2f", "\U0001d15e", "\U0002f800",
+]
+NOT_NFKC = ["\ufb01", "\uff21\uff11", "x\u00b2", "\u2460", "\u3000", "a\u3000b", "\u00a8", "\ufdfa", "\u2f00", "\u01c4", "\u0132", "\u2025", "\u210c", "\u33a5", "\u2122", "\u00bd", "\u2167", "\u1e9b\u0323"]
+COMPOSED_TWINS = ["caf\u00e9", "\u00c5", "\u00f1o", "\u00fcber", "\u1ed9", "\ud55c", "\uac00", "\u03a9x\u00e9", "\u1e69"]
+# fragments a sheet NAME may contain (a name is also a file name and an XLSX tab title: none of \\ / * ? : [ ], no blank edge)
+NAME_NOT_NORMAL = [x for x in NOT_NFC + NOT_NFKC if not any(c in x for c in "\u2000\u3000")] + ["a\u2000b", "a\u3000b"]
+
+
+def _is_nf(form: str, s: str) -> bool:
+    import unicodedata
+
+    return unicodedata.normalize(form, s) == s
+
+
+def norm_key(s: str) -> str:
+    """what two names share when they differ only in Unicode normalisation and case"""
+    import unicodedata
+
+    return unicodedata.normalize("NFKC", unicodedata.normalize("NFKC", s).casefold())
 ILLEGAL_XML = set(range(0, 9)) | {11, 12} | set(range(14, 32)) | {0xFFFE, 0xFFFF}
+HEADER_NOT_NORMAL = ["he\u0301ader", "nume\u0301ro", "\u212bngstr\u00f6m", "\u2126", "col\u037e", "\u1112\u1161\u11ab", "\ufb01eld", "\uff21", "m\u00b2", "A\u030a", "\u00c5"]
+
+
+def gen_not_normal(rng: random.Random) -> str:
+    """a short text that is not NFC- (mostly) or not NFKC-stable, alone or inside ordinary text"""
+    r = rng.random()
+    x = rng.choice(NOT_NFC) if r < 0.65 else rng.choice(NOT_NFKC) if r < 0.85 else rng.choice(COMPOSED_TWINS) + " " + rng.choice(NOT_NFC)
+    q = rng.random()
+    if q < 0.4:
+        return x
+    if q < 0.6:
+        return rng.choice(WORDS) + " " + x
+    if q < 0.8:
+        return x + rng.choice([" ", ",", "\n", "_", ""]) + rng.choice(WORDS)
+    return x + rng.choice(NOT_NFC + COMPOSED_TWINS)
 
 
 def gen_cell(rng: random.Random) -> str:
     r = rng.random()
     if r < 0.22:
         return ""
-    if r < 0.45:
+    if r < 0.42:
         return rng.choice(WORDS)
+    if r < 0.45:
+        return gen_not_normal(rng)
     if r < 0.85:
         return rng.choice(SPECIAL)
     if r < 0.95:
@@ -97,9 +143,16 @@ def gen_name(rng: random.Random, taken: set) -> str:
             # is an opaque string in every format
             s = rng.choice(["survey - part 1", "x - " + s, s + " - copy", "data.v2", s + ".csv", "a - b - c", "2024-01 - plan", "tab (1)", "new_" + s])
             s = s.strip(" .")
-        if s and s.lower() not in taken and s.casefold() not in taken:
+        elif rng.random() < 0.18:
+            # names that are not in a Unicode normal form (typed on another platform, pasted from a document): opaque too
+            x = rng.choice(NAME_NOT_NORMAL)
+            i = rng.choice([0, len(s), rng.randint(0, len(s))])
+            s = (s[:i] + x + s[i:])[:31].strip(" .") if rng.random() < 0.85 else x
+        # two names of one workbook never differ ONLY in case or normalisation (some file systems would merge them)
+        if s and s.lower() not in taken and s.casefold() not in taken and norm_key(s) not in taken:
             taken.add(s.lower())
             taken.add(s.casefold())
+            taken.add(norm_key(s))
             return s
 
 
@@ -108,7 +161,8 @@ def gen_sheet(rng: random.Random, name: str, min_rows=1) -> dict:
     headers = []
     seen = set()
     while len(headers) < ncol:
-        h = rng.choice(HEADER_POOL) if rng.random() < 0.8 else "h%d" % rng.randint(0, 999)
+        q = rng.random()
+        h = rng.choice(HEADER_POOL) if q < 0.74 else rng.choice(HEADER_NOT_NORMAL) if q < 0.8 else "h%d" % rng.randint(0, 999)
         if h not in seen:
             seen.add(h)
             headers.append(h)
@@ -341,6 +395,14 @@ def read_worker(seeds):
             for s in sheets:
                 out["sheets"] += 1
                 out["cells"] += len(s["rows"]) * len(s["headers"])
+                if not _is_nf("NFC", s["name"]):
+                    count("sheet_name_not_nfc")
+                elif not _is_nf("NFKC", s["name"]):
+                    count("sheet_name_nfc_not_nfkc")
+                count("header_not_nfc", sum(1 for h in s["headers"] if not _is_nf("NFC", h)))
+                count("header_nfc_not_nfkc", sum(1 for h in s["headers"] if _is_nf("NFC", h) and not _is_nf("NFKC", h)))
+                if len({norm_key(h) for h in s["headers"]}) < len(s["headers"]):
+                    count("headers_differing_only_in_normalisation_or_case")
                 count("rows=%s" % ("1" if len(s["rows"]) == 1 else "2-5" if len(s["rows"]) <= 5 else "6-15"))
                 count("cols=%s" % ("1" if len(s["headers"]) == 1 else "2-5" if len(s["headers"]) <= 5 else "6+"))
                 flat = [c for r in s["rows"] for c in r]
@@ -348,6 +410,8 @@ def read_worker(seeds):
                                  ("cell_quote", lambda c: "\"" in c), ("cell_sep", lambda c: any(x in c for x in "|;\\")),
                                  ("cell_lead_eq_or_apostrophe", lambda c: c[:1] in ("=", "'")), ("cell_astral", lambda c: any(ord(x) > 0xFFFF for x in c)),
                                  ("cell_non_ascii", lambda c: any(ord(x) > 127 for x in c)), ("cell_edge_space", lambda c: c != c.strip()),
+                                 ("cell_not_nfc", lambda c: not c.isascii() and not _is_nf("NFC", c)),
+                                 ("cell_nfc_not_nfkc", lambda c: not c.isascii() and _is_nf("NFC", c) and not _is_nf("NFKC", c)),
                                  ("cell_numeric_or_bool_looking", lambda c: c in ("007", "1.50", "1.0", "1e5", "TRUE", "FALSE", "True", "False", "0", "2020-01-31"))):
                     count(nm, sum(1 for c in flat if pred(c)))
             # C: every reader returns exactly what was written
@@ -359,7 +423,7 @@ def read_worker(seeds):
                 d = first_diff(exp, got)
                 if d is not None and len(out["viol"]) < 10:
                     out["viol"].append({"what": f"{label}: sheets read differ from the sheets written", "diff": d,
-                                        "workbook": minimise_to_sheet(sheets, d), "style": style, "format": label, "seed": seed})
+                                        "workbook": minimise_names(sheets, d, style, label, tmp), "style": style, "format": label, "seed": seed})
             pending.append((sheets, m["texts"], got_by, seed))
             styles.append(style)
             # the same PATHS written again with another workbook (one process, as a long-running conversion job
@@ -479,6 +543,25 @@ def minimise_to_sheet(sheets, d):
     """replay payload: only the sheet the difference is in (when known)"""
     if d and "sheet" in d:
         return [s for s in sheets if s["name"] == d["sheet"]]
+    return sheets
+
+
+def minimise_names(sheets, d, style, label, tmp):
+    """replay payload when the NAMES read differ from the names written: the sheets that went missing alone, cut to one
+    row — kept only if that smaller workbook still fails in the same format (checked by writing and reading it)"""
+    if not d or "sheet_names_read" not in d:
+        return minimise_to_sheet(sheets, d)
+    lost = [s for s in sheets if s["name"] not in d["sheet_names_read"]]
+    for cand in ([{**s, "headers": s["headers"][:2], "rows": [r[:2] for r in s["rows"][:1]]} for s in lost[:1]], lost):
+        if not cand or not all(any(r) for s in cand for r in s["rows"]):
+            continue
+        base = tempfile.mkdtemp(prefix="min_", dir=tmp)
+        try:
+            fmt, path = materialise(os.path.join(base, "w"), cand, style)["paths"][label]
+            if fmt == "__exc__" or first_diff(expect_of(cand), read_sheets(fmt, path)) is not None:
+                return cand
+        except Exception:  # noqa: BLE001
+            pass
     return sheets
 
 
@@ -1428,7 +1511,8 @@ def grid_of_csv_text(text: str):
     return recs[0], recs[1:]
 
 
-DECOR = ["a,b", "say \"hi\"", "line one\nline two", "Ünïcode 日本 \U0001F600", "=1+1", "'quoted", " padded ", "007", "TRUE", "1.50", "tab\there", "x & <y>"]
+DECOR = ["a,b", "say \"hi\"", "line one\nline two", "Ünïcode 日本 \U0001F600", "=1+1", "'quoted", " padded ", "007", "TRUE", "1.50", "tab\there", "x & <y>",
+         "cafe\u0301 \u212b \u2126", "\u1112\u1161\u11ab \ufb01 x\u00b2", "a\u037e b"]
 
 
 def gen_compilable(rng: random.Random) -> list[dict]:
@@ -1445,7 +1529,19 @@ def gen_compilable(rng: random.Random) -> list[dict]:
     else:
         nflows = rng.randint(1, 3)
         index_h = ["type", "sheet_name", "data_sheet", "data_row_id", "new_name", "template_arguments", "data_model", "status"]
-        sheets = [{"name": "content_index", "headers": index_h, "rows": [["create_flow", "flow%d" % k, "", "", "", "", "", ""] for k in range(nflows)]}]
+        names = ["flow%d" % k for k in range(nflows)]
+        if rng.random() < 0.35:
+            # flow sheets whose NAME is not in a Unicode normal form, referenced from the index by the very same string
+            taken = {norm_key("content_index"), norm_key("unused extra")}
+            for k in range(nflows):
+                while True:
+                    x = rng.choice(NAME_NOT_NORMAL)
+                    nm = rng.choice([x + "_flow", "flow " + x, x, "m%d %s" % (k, x), rng.choice(COMPOSED_TWINS) + " " + x])
+                    if norm_key(nm) not in taken:
+                        taken.add(norm_key(nm))
+                        names[k] = nm
+                        break
+        sheets = [{"name": "content_index", "headers": index_h, "rows": [["create_flow", names[k], "", "", "", "", "", ""] for k in range(nflows)]}]
         for k in range(nflows):
             rows = gsheets.gen_core_sheet(rng, rng.randint(1, 10))
             used = [h for h in gsheets.HEADERS if any(r.get(h, "") for r in rows)]
@@ -1453,7 +1549,7 @@ def gen_compilable(rng: random.Random) -> list[dict]:
                 if must not in used:
                     used.append(must)
             hs = [h for h in gsheets.HEADERS if h in used]
-            sheets.append({"name": "flow%d" % k, "headers": hs, "rows": [[r.get(h, "") for h in hs] for r in rows]})
+            sheets.append({"name": names[k], "headers": hs, "rows": [[r.get(h, "") for h in hs] for r in rows]})
     # decorate message texts of send_message rows with format-hostile text
     for s in sheets:
         if "type" in s["headers"] and "message_text" in s["headers"] and s["name"] != "content_index":
@@ -1504,6 +1600,8 @@ def compile_worker(seeds):
             out["n"] += 1
             m = materialise(base, sheets, style)
             out["keys"].append(json.dumps(sheets, ensure_ascii=False, sort_keys=True))
+            count("compile_sheet_name_not_nfc", sum(1 for s in sheets if not _is_nf("NFC", s["name"])))
+            count("compile_sheet_name_nfc_not_nfkc", sum(1 for s in sheets if _is_nf("NFC", s["name"]) and not _is_nf("NFKC", s["name"])))
             res = {}
             for label in FORMATS:
                 fmt, path = m["paths"][label]
@@ -1884,7 +1982,9 @@ def run(ck: core.Check):
     ck.lean = core.lean_step("C14", thorough=(ck.tier == "thorough"))
     ck.rule = (
         "read stream: seeded workbooks of 1-6 sheets, 1-15 rows, 1-30 unique non-empty headers, cells from a pool of empty / plain / "
-        "format-hostile text (commas, quotes, LF, | ; \\, leading = ', numeric- and boolean-looking, edge blanks, non-ASCII, astral), each written "
+        "format-hostile text (commas, quotes, LF, | ; \\, leading = ', numeric- and boolean-looking, edge blanks, non-ASCII, astral, text that is not in Unicode "
+        "NFC / NFKC form: decomposed accents, conjoining jamo, singletons such as U+212B U+2126 U+037E, compatibility characters — in sheet names, headers "
+        "and cells; two sheet names of one workbook never differ only in case or normalisation, two headers of one sheet may), each written "
         "as CSV folder (CRLF or LF records, minimal or full quoting), XLSX (text cells; empty cell absent or empty text) and JSON by the real "
         "convert from both; compile stream: content-index workbooks (templates, data sheets, loops) and core flow sheets with decorated message "
         "texts; direct stream: grids with None / typed cells / trailing and inner None headers fed to _sanitize, ragged JSON contents, tables with "
@@ -1992,7 +2092,8 @@ def run(ck: core.Check):
                         "representation: json_file_roundtrip then speaks about the model's text only; the model reader agrees with the real reader on the real text "
                         "(%d outputs)" % ck.strata["json_writer_text_differs_same_value"])
     # self-check of the generator's reach (exit 2, not a violation)
-    need = ["split_over_two_inputs", "cell_newline", "cell_comma", "cell_quote", "cell_astral", "cell_empty", "cell_lead_eq_or_apostrophe", "compiled_ok",
+    need = ["sheet_name_not_nfc", "sheet_name_nfc_not_nfkc", "header_not_nfc", "header_nfc_not_nfkc", "cell_not_nfc", "cell_nfc_not_nfkc", "compile_sheet_name_not_nfc",
+            "split_over_two_inputs", "cell_newline", "cell_comma", "cell_quote", "cell_astral", "cell_empty", "cell_lead_eq_or_apostrophe", "compiled_ok",
             "sanitize:ok", "sanitize:allNoneHeaders", "sanitize:noHeaders", "readjson:invalidDimensions", "readjson:ok", "tojson:dup_headers",
             "csv_grid:lone_empty_field", "csv_grid:empty_record", "csv_grid:cell_cr", "csv_grid:outside_guard(LF,minimal,CR in cell)", "csv_text:blank_record",
             "csv_text:field_with_line_end", "csv_file:cell_cr", "csv_file:cell_crlf", "csv_file:cell_quote", "csv_file:mutated:invalidDimensions",
@@ -2031,7 +2132,10 @@ def replay(path):
             for label in FORMATS:
                 fmt, p = m["paths"][label]
                 got = {"__exc__": p} if fmt == "__exc__" else read_sheets(fmt, p)
-                print(f"--- {label}: read differs from written:", json.dumps(first_diff(exp, got), ensure_ascii=False))
+                d = first_diff(exp, got)
+                print(f"--- {label}: read differs from written:", json.dumps(d, ensure_ascii=False))
+                if d is not None and not json.dumps(d, ensure_ascii=False).isascii():
+                    print("    (escaped, so that look-alike texts can be told apart):", json.dumps(d, ensure_ascii=True))
                 if any(s["name"] == "content_index" for s in wb) and fmt != "__exc__":
                     print(f"    compile: {json.dumps(summarise(compile_real(fmt, [p])), ensure_ascii=False)[:300]}")
         finally:
